@@ -209,7 +209,21 @@ WrapVerdicts == [o  |-> Verdict(<<"{","\"","x","\"",":">> \o doc \o <<"}">>),
                  a1 |-> Verdict(<<"[">> \o doc \o <<"]">>),
                  a2 |-> Verdict(<<"[","0",",">> \o doc \o <<"]">>),
                  t  |-> Verdict(<<"[">> \o doc \o <<",","\"","\\","n","x","\"","]">>)]
+\* Insertions into a COMPLETE document: a class that kills the prefix doc[1..p] is inserted at p and the rest of
+\* the document follows.  The result has a non-viable prefix, so it is not a document whatever follows
+\* (InsertionsAreDead); embedded in an array or an object its prefix may be viable again, so the verdicts of the
+\* wrapped sequences are computed by the recogniser itself.
+Ins(p, c) == SubSeq(doc, 1, p) \o <<c>> \o SubSeq(doc, p + 1, Len(doc))
+KillsAt(p) == LET r == Run("V", <<>>, FALSE, <<>>, SubSeq(doc, 1, p)) IN Kills(r.m, r.stk, r.key, r.lit)
+WrapOf(d) == [o  |-> Verdict(<<"{","\"","x","\"",":">> \o d \o <<"}">>),
+              a1 |-> Verdict(<<"[">> \o d \o <<"]">>),
+              a2 |-> Verdict(<<"[","0",",">> \o d \o <<"]">>)]
+InsertionsOf == IF Accepting(m, stk) /\ Len(doc) > 0
+                THEN UNION {{[p |-> p, c |-> c, w |-> WrapOf(Ins(p, c))] : c \in KillsAt(p)} : p \in 0..(Len(doc) - 1)}
+                ELSE {}
+InsertionsAreDead == \A x \in InsertionsOf : ~Verdict(Ins(x.p, x.c))
+
 Record == [d |-> doc, a |-> Accepting(m, stk), k |-> Kills(m, stk, key, lit),
-           c |-> Completion(m, stk, key, lit), m |-> m, n |-> Len(stk), w |-> WrapVerdicts]
+           c |-> Completion(m, stk, key, lit), m |-> m, n |-> Len(stk), w |-> WrapVerdicts, ins |-> InsertionsOf]
 EmitVector == Emit => PrintT(ToJson(Record))
 =============================================================================
